@@ -7,6 +7,10 @@ from . import core
 
 
 def main() -> int:
+    import warnings
+
+    warnings.filterwarnings("ignore", category=RuntimeWarning)  # numpy 0/0 in estimators of tiny samples
+    warnings.filterwarnings("ignore", category=UserWarning)
     if len(sys.argv) < 2:
         print("usage: ./check <property-id> [--tier quick|thorough] [--replay path]", file=sys.stderr)
         return 2
